@@ -1562,7 +1562,7 @@ def count_term(canon, comp, cond, fr):
     lg = Logic(canon)
     lits = []
     for c in conds:
-        alts = lg.dnf(c, fr, True, 1)
+        alts = lg.dnf(c, fr, True, 0)        # predicate calls stay atoms
         if len(alts) != 1:
             return None
         lits += alts[0]
@@ -1590,6 +1590,8 @@ def _count_of(canon, e, fr):
             return count_term(canon, comp, cond, fr)
     if isinstance(e, ast.Call) and isinstance(e.func, ast.Name) and len(e.args) == 1 and not e.keywords:
         comp = e.args[0]
+        if e.func.id == 'len':
+            comp = _resolve_local(comp, fr, want=(ast.ListComp,))
         if not isinstance(comp, (ast.GeneratorExp, ast.ListComp)) or len(comp.generators) != 1:
             return None
         g = comp.generators[0]
